@@ -64,7 +64,7 @@ func (r *run) bindCase(b *bootguard.BootGuard, descr map[string]interface{}, exp
 		km, bpm := b.VData.BGkm, b.VData.BGbpm
 		keyalg, keydata = int(bpm.PMSE.KeySignature.Key.KeyAlg), bpm.PMSE.KeySignature.Key.Data
 		algs = []int{int(km.BPKey.HashAlg)}
-		lit = fmt.Sprintf("CBindBG %d %s %d %s %s %s %s", int(km.BPKey.HashAlg), gal.Bytes(km.BPKey.HashBuffer), keyalg, gal.Bytes(keydata),
+		lit = fmt.Sprintf("CBindBG %d %s %d %s %s %s %s", int(km.BPKey.HashAlg), bz(km.BPKey.HashBuffer), keyalg, bz(keydata),
 			htLit(hashTable(algs, keydata)), obsBool(hasO, hasV), obsBool(mtO, mtV))
 	} else {
 		km, bpm := b.VData.CBNTkm, b.VData.CBNTbpm
@@ -72,9 +72,9 @@ func (r *run) bindCase(b *bootguard.BootGuard, descr map[string]interface{}, exp
 		var hs []string
 		for _, h := range km.Hash {
 			algs = append(algs, int(h.Digest.HashAlg))
-			hs = append(hs, fmt.Sprintf("(%s, %d, %s)", gal.U(uint64(h.Usage)), int(h.Digest.HashAlg), gal.Bytes(h.Digest.HashBuffer)))
+			hs = append(hs, fmt.Sprintf("(%s, %d, %s)", gal.U(uint64(h.Usage)), int(h.Digest.HashAlg), bz(h.Digest.HashBuffer)))
 		}
-		lit = fmt.Sprintf("CBindCBNT %s %d %s %s %s %s", gal.List(hs), keyalg, gal.Bytes(keydata),
+		lit = fmt.Sprintf("CBindCBNT %s %d %s %s %s %s", gal.List(hs), keyalg, bz(keydata),
 			htLit(hashTable(algs, keydata)), obsBool(hasO, hasV), obsBool(mtO, mtV))
 	}
 	descr["gen"] = genOf(b)
